@@ -1044,6 +1044,13 @@ class Interp:
             return Num.atom(f"tell#{h.hid}")
         if meth == "write":
             v = self.ev(node.args[0], st)
+            if isinstance(v, ArrV) and v.flat and v.dims is not None:
+                # a flattened array handed to write() goes out through the buffer protocol: the same bytes as
+                # .tobytes() of that flat array
+                tot = Ratio(8)
+                for d in v.dims:
+                    tot = tot * d.r
+                v = BytesV("data", Num(tot * v.ncomps().r), v)
             self.emit(st, "write", node, h=h, value=v)
             return NoneV()
         if meth == "read":
@@ -1301,7 +1308,7 @@ class Interp:
                 r.scalar_comp = CompSel(arr.fab, "single", lo_comp)
             self.emit(st, "reshape", node, arr=r, src=arr, order=order)
             return r
-        if meth == "flatten":
+        if meth in ("flatten", "ravel"):
             order = "C(default)"
             if "order" in kw:
                 o = self.ev(kw["order"], st)
